@@ -101,7 +101,8 @@ def failing_documents(fmt):
     docs.append(("root:second-include-missing", {"k": "tree", "v": D([("inc", S("good")), ("inc2", S("zz"))] + other)}))
     if fmt in ("json", "yaml", "pickle"):
         docs.append(("root:not-a-map", {"k": "tree", "v": D(other + [("inc", S("list"))])}))
-    docs.append(("nested:scope-not-a-map", {"k": "tree", "v": D(other + [("sub", I(5))])}))
+    # a scalar where a sub-configuration is expected ({"sub": 5}) is NOT a case of this clause: the
+    # document parses and no include fails; load_tree rejects it half-way, which C06 leaves open
     return docs
 
 
